@@ -51,6 +51,35 @@ def c_array(name, bs):
 
 def replay_wrapper(w):
     """Returns verdict text (violation reproduced) or None."""
+    r = native_run(w)
+    if r is None:
+        return None
+    agree, san, got, obs = r
+    if san:
+        return "sanitizer: " + san
+    if not agree:
+        # the native build behaves differently from the symbolic run: the encoding is wrong, not the code
+        return None
+    return "native run reproduces the symbolic run's observables %s, which violate: %s" % ({k: got.get(k) for k in obs}, w.get("what"))
+
+
+def validate_sample(w):
+    """Engine validation on a non-violating path: the native build must behave exactly as the symbolic
+    run did on the same concrete input (and no sanitizer may fire).  Returns None if it does, else text."""
+    r = native_run(w)
+    if r is None:
+        return "SKIP"       # the driver generator does not cover this argument shape (pointer targets): not validated
+    agree, san, got, obs = r
+    if san and not san.startswith("LeakSanitizer"):
+        # (leaks are judged symbolically; the plain C API of owner(caller) string results leaks by construction, see DESIGN 5.3)
+        return "sanitizer report on a path the symbolic run found clean: " + san
+    if not agree:
+        return "native observables %r differ from the symbolic run's %r" % ({k: got.get(k) for k in obs}, obs)
+    return None
+
+
+def native_run(w):
+    """-> (agree, sanitizer text|None, native observables, symbolic observables) or None"""
     key = tuple(w["build"])
     b = lc.get_build(key)
     infos = wrapsym.collect(b)
@@ -166,8 +195,6 @@ def replay_wrapper(w):
     if rc == -999:
         return None
     san = re.search(r"(AddressSanitizer: [\w-]+|runtime error: [^\n]+|LeakSanitizer: [\w ]+)", out)
-    if san:
-        return "sanitizer: " + san.group(1)
     obs = w.get("observed", {})
     got = {}
     for line in out.splitlines():
@@ -177,20 +204,18 @@ def replay_wrapper(w):
         if parts[0] == "ret":
             got["ret"] = int(parts[1])
         elif ":" in parts[0]:
-            got[parts[0]] = [int(x) for x in parts[1:]]
+            try:
+                got[parts[0]] = [int(x) for x in parts[1:]]
+            except ValueError:
+                pass
     agree = True
     for k, v in obs.items():
         if k == "ret":
-            bits = 32
             a, c = got.get("ret"), v
-            if a is None or (a - c) % (1 << bits) != 0:
+            if a is None or (a - c) % (1 << 8) != 0 and (a - c) % (1 << 32) != 0:
                 agree = False
         elif k in got:
             n = min(len(got[k]), len(v))
             if got[k][:n] != v[:n]:
                 agree = False
-    if not agree:
-        # the native build behaves differently from the symbolic run: the encoding is wrong, not the code
-        return None
-    return "native run reproduces the symbolic run's observables %s, which violate: %s" % (
-        {k: got.get(k) for k in obs}, w.get("what"))
+    return agree, (san.group(1) if san else None), got, obs
